@@ -32,8 +32,12 @@ PROVED = ['mul_with_mod_spec [P]: for f canonical of degree n, a, b canonical of
           'inv_spec [P]: on every n x n x n table, with nm = norm a: nm = 0 -> inv a panics (unwrap of Err(MatrixNotInvertible)); nm <> 0 -> inv a = Done (b, |nm|), size b = n, mul a b = |nm| * e_0 (the rational row |nm| * row 0 of M_a^-1 is integral: to_integer does not truncate)',
           'inv_cancel [P] (table_assoc = true, e_0 a right identity): for (b, d) returned by inv a, mul (mul c a) b = d * c for every c',
           'norm_resultant [P]: for every f of degree n >= 1 (any leading coefficient), every basis b with get_mult_table b f = Done t and every integer vector a: with g = sum_k a_k * (row k of b) the polynomial such that the element is g(theta), qz (norm a) = resultant g f / lc(f)^(deg g) over Qc (MathComp Sylvester determinant; resultant g f is the classical Res(f, g))',
-          'norm_resultant_monic [P]: for monic f and the power basis (identity_power_basis: the basis trivial_order_monic starts from), norm a = resultant (Poly a) (Poly f) over Z']
-NOT_PROVED = ['get_inv_diff = dual lattice of the trace form (oracle on every case)',
+          'norm_resultant_monic [P]: for monic f and the power basis (identity_power_basis: the basis trivial_order_monic starts from), norm a = resultant (Poly a) (Poly f) over Z',
+          'inv_diff_dual [P]: on every n x n x n table (n >= 1, nothing else assumed), if get_inv_diff returns (l, N) then an integer vector v lies in the row lattice of N iff for every integer '
+          'vector w the value trace(mul v w) returned by MultTable::trace on MultTable::mul is divisible by l, i.e. N / l is the dual lattice of the order for the trace form; '
+          'inv_diff_dual_mx [P]: the same as v * Tr = l * c with Tr_ij = trace(w_i w_j); inv_diff_scaled_inverse [P]: N is the normal form of an integer matrix Int with Int Tr = Tr Int = l > 0; '
+          'trace_mul_form [P]: trace(mul v w) = sum_ij v_i w_j Tr_ij']
+NOT_PROVED = ['totality of get_inv_diff (it returns iff the trace form is non-degenerate; inv_diff_dual is a partial-correctness statement)',
               'to_z_basis with rational coordinates (oracle on every case)',
               'totality of get_mult_table for lattices closed under multiplication (partial correctness only: statements carry get_mult_table b f = Done t)']
 ASSUMPTIONS = ['solve_linear_system / determinant / inv are used through the C18 theorems of area/linalg (solve_ok) merged into this branch',
@@ -47,11 +51,11 @@ CLAIM = dict(
          'get_mult_table makes mul agree with the product in Q[x]/(f) on coordinate vectors, and its mul is commutative and associative on all integer vectors '
          '(so the boolean table flags assumed by the C16 laws hold for every table of an order); norm a = det M_a and trace a = tr M_a for the integer matrix '
          'M_a = sum_i a_i T_i; norm is multiplicative on every associative table; inv a returns (b, |norm a|) with a * b = |norm a| * e_0 whenever norm a <> 0 '
-         '(the adjugate argument: nothing is truncated) and panics when norm a = 0; norm(g(theta)) = Res(f, g) / lc(f)^(deg g) for every table of an order, any basis '
+         '(the adjugate argument: nothing is truncated) and panics when norm a = 0; get_inv_diff returns the dual lattice of the trace form on every well-shaped table (inv_diff_dual: v in N iff l | trace(v w) for all integer w); norm(g(theta)) = Res(f, g) / lc(f)^(deg g) for every table of an order, any basis '
          '(Res = MathComp\'s Sylvester determinant; the link from the model\'s resultant routines to that determinant is C10\'s). The model (coq/Model/Algebraic.v, MultTable.v, Order.v) reproduces '
          'the routines statement by statement including assertions, unwraps and bounds checks; it is tied to /repo by running the extracted model and impl_svc on '
          'the same inputs.',
-    note='Not proved (checked by independent Fraction oracles on every explored input): get_inv_diff, to_z_basis with rational coordinates. '
+    note='get_inv_diff: the returned (l, N) is proved to be the dual lattice of the trace form (inv_diff_dual), for every well-shaped table. Not proved (checked by independent Fraction oracles on every explored input): to_z_basis with rational coordinates. '
          'inv_spec is stated for every well-shaped table: that b / |norm a| is the inverse of a needs w_0 = 1 and associativity (inv_cancel), which the theorem takes as hypotheses. '
          'Statements about tables are partial-correctness statements (they assume get_mult_table returned).',
     ref='DESIGN.md section 4, C14')
